@@ -6,9 +6,9 @@
 #include "tree.h"
 
 enum { SH_DEFAULT, SH_DOTSUFFIX, SH_NOSUFFIX_NULL, SH_NOSUFFIX_EMPTY, SH_NOPROJECT, SH_PD2, SH_PD3, SH_PD4,
-       SH_CONFIGDIRS, SH_SETCONFDIRS, SH_DROPIN_ONLY_NULL, SH_DROPIN_ONLY_EMPTY, SH_REFUSE, SH_NOROOT, SH_ALTNAMES, SH_BOTH_LISTS, SH_N };
+       SH_CONFIGDIRS, SH_SETCONFDIRS, SH_DROPIN_ONLY_NULL, SH_DROPIN_ONLY_EMPTY, SH_REFUSE, SH_NOROOT, SH_ALTNAMES, SH_BOTH_LISTS, SH_HOLLOW, SH_N };
 static const char *SHN[SH_N] = { "default", "dot-suffix", "suffix-NULL", "suffix-empty", "project-NULL", "PARSING_DIRS-2", "PARSING_DIRS-3",
-  "PARSING_DIRS-4", "CONFIG_DIRS", "econf_set_conf_dirs", "dropins-only(name NULL)", "dropins-only(name \"\")", "refuse-NULL-NULL", "no-ROOT_PREFIX", "default/dot-file-names", "CONFIG_DIRS + econf_set_conf_dirs (object list wins)" };
+  "PARSING_DIRS-4", "CONFIG_DIRS", "econf_set_conf_dirs", "dropins-only(name NULL)", "dropins-only(name \"\")", "refuse-NULL-NULL", "no-ROOT_PREFIX", "default/dot-file-names", "CONFIG_DIRS + econf_set_conf_dirs (object list wins)", "default, 10-a.conf of /etc is a file without keys" };
 /* second name universe for the default shape: a dot file, dictionary-vs-byte order, the bare suffix, a name that only contains the suffix */
 static const char *UNI2[T_MAXU] = { ".h.conf", "README", "x.conf.bak", "a.conf", ".conf", "B.conf", ".conf.h" };   /* x.conf.bak: the suffix occurs, but not at the end */
 static const char *UNI[T_MAXU] = { "10-a.conf", "9-b.conf", "B.conf", "a.conf", "README", ".h.conf", ".conf", "x.conf.bak" };
@@ -91,6 +91,7 @@ static void setup_shape(int sh)
     break;
   }
   for (int l = 0; l < ts.nlayers; l++) snprintf(ts.layer_arg[l], sizeof ts.layer_arg[l], "%s", ts.layer_dir[l]);
+  t_opt_hollow = sh == SH_HOLLOW;
   t_build_contents();
   t_setup_dirs();
   if (sh == SH_BOTH_LISTS || sh == SH_DROPIN_ONLY_NULL) {
